@@ -152,8 +152,8 @@ theorem lookupB_update {t : Node} (h : Inv t) (k v k' : List UInt8) :
     · simp [lookup_tinsert t _ v hc, *]
   · have hne : hexKey k' ≠ hexKey k := fun e => hk (hexKey_inj e)
     split
-    · simp [lookup_tdelete t _ hc, hne, hk]
-    · simp [lookup_tinsert t _ v hc, hne, hk]
+    · simp [lookup_tdelete t _ hc, hne]
+    · simp [lookup_tinsert t _ v hc, hne]
 
 theorem inv_foldl (ops : List Op) {t : Node} (h : Inv t) :
     Inv (ops.foldl (fun t op => update t op.1 op.2) t) := by
